@@ -155,7 +155,8 @@ func (r *rewriter) file(f *ast.File) {
 				r.stats["maprange"]++
 				r.mapRange(n)
 			} else if r.isChan(n.X) {
-				panic(fmt.Sprintf("%s: range over channel not supported", r.fset.Position(n.Pos())))
+				r.stats["chanrange"]++
+				c.Replace(r.chanRange(n))
 			}
 		}
 		return true
@@ -256,6 +257,34 @@ func (r *rewriter) selectStmt(s *ast.SelectStmt) ast.Stmt {
 	sw.Tag = &ast.CallExpr{Fun: &ast.SelectorExpr{X: sel, Sel: ast.NewIdent("Wait")}}
 	pre = append(pre, sw)
 	return &ast.BlockStmt{List: pre}
+}
+
+// chanRange rewrites `for v := range ch { body }` into
+// `for { v, ok := Recv2(ch); if !ok { break }; body }` (ch evaluated once).
+func (r *rewriter) chanRange(n *ast.RangeStmt) ast.Stmt {
+	ch := r.tmp("ch")
+	ok := r.tmp("ok")
+	var lhs ast.Expr = ast.NewIdent("_")
+	tok := token.DEFINE
+	if n.Key != nil && !isBlank(n.Key) {
+		lhs = n.Key
+		if n.Tok == token.ASSIGN {
+			// the loop variable exists outside: declare ok separately
+			tok = token.ASSIGN
+		}
+	}
+	var recv []ast.Stmt
+	if tok == token.ASSIGN {
+		recv = append(recv, &ast.DeclStmt{Decl: &ast.GenDecl{Tok: token.VAR, Specs: []ast.Spec{
+			&ast.ValueSpec{Names: []*ast.Ident{ok}, Type: ast.NewIdent("bool")}}}})
+	}
+	recv = append(recv, &ast.AssignStmt{Lhs: []ast.Expr{lhs, ok}, Tok: tok, Rhs: []ast.Expr{r.call("Recv2", ch)}},
+		&ast.IfStmt{Cond: &ast.UnaryExpr{Op: token.NOT, X: ok}, Body: &ast.BlockStmt{List: []ast.Stmt{&ast.BranchStmt{Tok: token.BREAK}}}})
+	loop := &ast.ForStmt{Body: &ast.BlockStmt{List: append(recv, n.Body.List...)}}
+	return &ast.BlockStmt{List: []ast.Stmt{
+		&ast.AssignStmt{Lhs: []ast.Expr{ch}, Tok: token.DEFINE, Rhs: []ast.Expr{n.X}},
+		loop,
+	}}
 }
 
 func (r *rewriter) mapRange(n *ast.RangeStmt) {
